@@ -6,8 +6,9 @@ use super::*;
 #[kani::proof]
 #[kani::unwind(6)]
 fn c18_sep() {
-    let b: [u8; 3] = crate::verif_shim::any_bytes::<3>();
-    let l: usize = kani::any();
+    let mut dr = crate::verif_shim::Draw::new();
+    let b: [u8; 3] = dr.bytes::<3>();
+    let l: usize = dr.usize();
     kani::assume(l <= 3);
     let mut i = 0;
     while i < 3 {
